@@ -27,14 +27,13 @@ Definition api_request5 (r : request5) : bool :=
   | R5PubRel _ | R5PubComp _ | R5PingResp | R5SubAck _ | R5UnsubAck _ => false
   end.
 
-(** the contract of the v5 state machine: as v4, plus: a CONNACK never announces receive-maximum 0
-    (a protocol error the codec is expected to refuse) *)
+(** the contract of the v5 state machine: as v4.  Nothing is asked of the broker: since the fix:
+    commit b2fc5b9 (F37) a CONNACK announcing receive-maximum 0 is refused by the state machine *)
 Definition op_ok5 (s : state5) (o : op5) : bool :=
   match o with
   | Out5 (R5Publish p) => match q_qos p with Q0 => true | _ => negb (is_some (s5_collision s)) end
   | Out5 (R5PubRel i) => (1 <=? i) && (i <=? s5_max_limit s) && negb (busy5 s i)
   | Out5 r => api_request5 r
-  | Inc5 (P5ConnAck _ _ (Some rm) _) => 1 <=? rm
   | Inc5 _ => true
   | Clean5 => true
   end.
@@ -382,13 +381,14 @@ Proof.
 Qed.
 
 Lemma handle_incoming_connack5_inv s code rm tam :
-  Inv5 s -> (forall m, rm = Some m -> 1 <= m) -> post5 (handle_incoming_connack5 s code rm tam) Inv5.
+  Inv5 s -> post5 (handle_incoming_connack5 s code rm tam) Inv5.
 Proof.
-  intros I Hrm. unfold handle_incoming_connack5. destruct (negb (code =? 0)); [exact I|]. cbn [post5].
+  intros I. unfold handle_incoming_connack5. destruct (negb (code =? 0)); [exact I|].
   assert (I1 : Inv5 (match tam with Some t => u_alias_max s t | None => s end)).
   { destruct tam; [apply inv5_u_alias_max|]; exact I. }
   set (s1 := match tam with Some t => u_alias_max s t | None => s end) in *. clearbody s1.
-  destruct rm as [m|]; [|exact I1]. specialize (Hrm m eq_refl).
+  destruct rm as [m|]; [|exact I1].
+  destruct (N.eqb_spec m 0) as [E0 | E0]; [exact I1|]. cbn [post5].
   pose proof (j_max1 s1 I1). pose proof (j_maxle s1 I1). sproj5.
   assert (Hmin : 1 <= N.min m (s5_max_limit s1) /\ N.min m (s5_max_limit s1) <= s5_max_limit s1) by lia.
   destruct (N.leb_spec (N.min m (s5_max_limit s1)) (s5_last_pkid s1)).
@@ -397,12 +397,12 @@ Proof.
 Qed.
 
 Lemma handle_incoming_packet5_inv s pk :
-  Inv5 s -> op_ok5 s (Inc5 pk) = true -> post5 (handle_incoming_packet5 s pk) Inv5.
+  Inv5 s -> post5 (handle_incoming_packet5 s pk) Inv5.
 Proof.
-  intros I Hok. unfold handle_incoming_packet5.
+  intros I. unfold handle_incoming_packet5.
   pose proof (inv5_push s (Ev5In pk) I) as I1.
   destruct pk; cbn [post5]; try exact I1.
-  - apply handle_incoming_connack5_inv; [exact I1|]. intros m ->. cbn [op_ok5] in Hok. lia.
+  - apply handle_incoming_connack5_inv. exact I1.
   - (* publish *) unfold handle_incoming_publish5, outgoing_puback5, outgoing_pubrec5, outgoing_disconnect5.
     destruct (q_alias p) as [a|]; [destruct (negb (q_topic p =? 0)); [|destruct (iset_mem (s5_aliases (push5 s (Ev5In (P5Publish p)))) a)]|];
       destruct (q_qos p); sproj5; try destruct (s5_manual s); cbn [post5];
@@ -490,7 +490,7 @@ Proof.
   intros I Hok. destruct o as [r | pk |]; cbn [step5].
   - pose proof (handle_outgoing_packet5_inv s r I Hok) as H.
     destruct (handle_outgoing_packet5 s r) as [[s' x] | [s' e] | t]; cbn [bind]; exact H.
-  - pose proof (handle_incoming_packet5_inv s pk I Hok) as H.
+  - pose proof (handle_incoming_packet5_inv s pk I) as H.
     destruct (handle_incoming_packet5 s pk) as [[s' x] | [s' e] | t]; cbn [bind]; exact H.
   - pose proof (clean5_inv s I) as H. destruct (clean5 s) as [s' l]. cbn [fst] in H. tauto.
 Qed.
